@@ -130,10 +130,17 @@ def gen_close(rnd):
 
 
 def gen_alloc(rnd):
-    """C10: several threads open channels at once."""
+    """C10: several threads open channels at once, others close existing ones;
+    a small channel_max forces numbers to be reused."""
+    nchan = rnd.choice([0, 1, 2, 3])
     threads = [[(0, ('open',)) for _ in range(rnd.randrange(1, 3))]
                for _ in range(rnd.choice([2, 3, 4]))]
-    return dict(nchan=rnd.choice([0, 1, 2]), threads=threads)
+    for c in range(1, nchan + 1):
+        if rnd.random() < 0.6:
+            threads.append([(c, ('close', 200))])
+    nopen = sum(len(t) for t in threads if t[0][1][0] == 'open')
+    return dict(nchan=nchan, threads=threads,
+                channel_max=rnd.choice([0, nchan + nopen, nchan + nopen + 1]))
 
 
 def gen_chclose(rnd):
